@@ -122,3 +122,37 @@ pub(crate) fn ln_model(x: f64) -> f64 {
         v
     }
 }
+
+/// powf on positive bases: any non-negative value incl. +inf (overflow) and 0 (underflow); NaN-free
+/// for non-NaN arguments. Used where the code under test must be robust to over/underflow.
+pub(crate) fn powf_unbounded(b: f64, e: f64) -> f64 {
+    if b.is_nan() || e.is_nan() {
+        return f64::NAN;
+    }
+    let v: f64 = kani::any();
+    kani::assume(!v.is_nan() && v >= 0.0);
+    v
+}
+
+/// ln_1p on [0, +inf]: ln_1p(0) = 0, 0 <= ln_1p(x) <= x, at most 0.7 on [0,1], +inf only at +inf.
+pub(crate) fn ln_1p_model(x: f64) -> f64 {
+    if x.is_nan() || x < -1.0 {
+        return f64::NAN;
+    }
+    if x == 0.0 {
+        return 0.0;
+    }
+    if x == f64::INFINITY {
+        return f64::INFINITY;
+    }
+    let v: f64 = kani::any();
+    if x > 0.0 {
+        kani::assume(v >= 0.0 && v <= x && v <= 745.0);
+        if x <= 1.0 {
+            kani::assume(v <= 0.7);
+        }
+    } else {
+        kani::assume(v <= 0.0 && !v.is_nan());
+    }
+    v
+}
